@@ -1,8 +1,8 @@
 #!/bin/bash
 # run every seeded patch through all rules, 4 at a time (one cargo target dir per slot)
 cd /verif
-ls /verif/seeded/*/patch.diff | awk '{print NR%4, $0}' > /tmp/patchlist.txt
-for slot in 0 1 2 3; do
+ls /verif/seeded/*/patch.diff | awk '{print NR%8, $0}' > /tmp/patchlist.txt
+for slot in 0 1 2 3 4 5 6 7; do
   ( grep "^$slot " /tmp/patchlist.txt | cut -d' ' -f2 | while read p; do SLOT=$slot python3 /verif/tools/run_patch.py $p; done > /tmp/allp_$slot.log 2>&1 ) &
 done
 wait
